@@ -286,6 +286,24 @@ theorem constructor_is_ll_constructor (groups : List Name) (syn : List (Name × 
       LL.constructG ⟨ex.tmplKeys, ex.genSyms⟩ ⟨groups, syn, [], skip, start, ex.prods, smart⟩ = .ok TP.ll :=
   constructT_constructG groups syn skip start smart keep termOrder entries TP hterms h
 
+/-- **Choice symbols and their wrappers as elements of a sequence (or anywhere).** The elements of a flattened sequence
+are cleaned with the default flags (`seq_items`: `cleanup x false false`; the hidden `SEQ__ELEMENT` choice symbol plays no
+part). For such a call — and for any `for_container` flag: (1) an element cleaned as the child of a choice symbol must
+not be squashed further (the flag returned is `True`); (2) a squashable choice symbol `V` that is not kept vanishes
+around the alternative it selected: cleaning `V[x]` *is* cleaning `x` as the child of a choice symbol, so the sequence
+entry is the matched `WORD` / `LIST` / `MAP` … element itself, not a `V[…]` node; (3) a one-production wrapper `W -> V`
+(squashable, no choice symbol, not kept) vanishes around such an element as well. -/
+theorem choice_elements_squashed (cl : Cleanuper) :
+    (∀ t r, cleanup cl t false true = .ok r → r.2 = true) ∧
+    (∀ V x fc, lookup cl.templates V = none → V ∈ cl.squash → V ∈ cl.choice → V ∉ cl.keep →
+      cleanup cl (.elem V false (.list [x])) fc false = cleanup cl x false true) ∧
+    (∀ W y fc r, lookup cl.templates W = none → W ∈ cl.squash → W ∉ cl.choice → W ∉ cl.keep →
+      cleanup cl y false false = .ok r → r.2 = true →
+      cleanup cl (.elem W false (.list [y])) fc false = .ok r) :=
+  ⟨fun t r h => cleanup_fch_true cl t r h,
+   fun V x fc hT hs hc hk => cleanup_choice_node cl V x fc hT hs hc hk,
+   fun W y fc r hT hs hc hk hy hr => cleanup_wrapper_node cl W y fc r hT hs hc hk hy hr⟩
+
 /-- **Squashing around container items.** A squashable symbol (all its rules have at most one symbol) that is not
 in `keep_symbols` disappears around a container item: cleaning `name[x]` with `for_container=True` is cleaning `x`
 (so chains such as `LIST_ITEM[VALUE[WORD]]` collapse to the innermost element, whose value becomes the entry). A kept
@@ -501,5 +519,15 @@ example : (match jsonT true with
     | .error _ => false) = true := by decide +kernel
 
 example : strLines "[a, // page 1\x0cb, c,\n d]  ".toList = ["[a, // page 1\x0cb, c,".toList, " d]".toList] := by decide
+
+/-- `ProdSequence('VALUE', ';')` on `a ; [b]`: the entries are the matched `WORD` / `;` / `LIST` elements themselves -/
+private def exSeqCl : Cleanuper :=
+  ⟨[("LIST".toList, .list exLV)], ["VALUE".toList, "S__ELEMENT".toList], ["E".toList],
+   ["E".toList, "VALUE".toList, "S__ELEMENT".toList]⟩
+example : cleanup exSeqCl
+    (.elem "S".toList true (.list [vw "a", tok ";" ";", nd "VALUE" [nd "LIST" [tok "[" "[", vw "b",
+      .elem ("LIST".toList ++ tailSuffix) true .none, tok "]" "]"]]])) false false =
+    .ok (("S".toList, true, .list [tok "WORD" "a", tok ";" ";", .elem "LIST".toList true (.list [.str "b".toList])]),
+      false) := by rfl
 
 end C05
